@@ -314,6 +314,29 @@ def _verify_validate(self, tpath, ntr):
 
 VerifyRun.validate = _verify_validate
 
+
+def _verify_random(self, n, fam="ed25519"):
+    """impl -> spec beyond the TLC bounds: seeded random supply chains (up to 3 steps, 4 keys per step, every file
+    state, sub-layouts) run through in_toto_verify with hooks on; Trace_Verify decides with the requirement layer of
+    Verify.tla evaluated by TLC on each random scenario."""
+    tpath = os.path.join(vlib.OUT, f"{self.prop}.random.trace.ndjson")
+    run_itv(["record", "VERIFY", str(n)], stdout_path=tpath, env_extra={"ITV_FAMILY": fam, "ITV_EVENTS": "1"})
+    with open(tpath) as f:
+        lines = [x for x in f if x.startswith("{")]
+    with open(tpath, "w") as f:
+        f.writelines(lines)
+    total, rejected, tst = validate_trace(tpath, "Trace_Verify", "Trace_Verify.cfg", "tvr" + self.prop.lower())
+    self.rep.cov["traces_validated_against_impl"] += total - len(rejected)
+    self.rep.cov["parts"]["random_trace"] = {"runs": total, "rejected": len(rejected), "states": tst.distinct}
+    for rj in rejected:
+        ev = rj.get("event")
+        self.rep.mismatch({"kind": "trace_rejected", "driver": "random", "event": (json.loads(ev).get("ev") if ev else None)},
+                          {"trace": rj["lines"], "at": rj["at"], "event": ev})
+    os.remove(tpath)
+
+
+VerifyRun.random = _verify_random
+
 VERIFY_ASSUME = ["cryptographic primitives, hashing and DER/PEM codecs are abstracted (perfect signatures, injective ids); ring is trusted",
                  "small scope: <= 3 functionary keys + 1 foreign key, <= 2 steps per layout, delegation depth <= 2",
                  "the verification clock is pinned through the guarded hook (verif::set_now) so that time offsets are exact"]
@@ -328,6 +351,7 @@ def check_C02(rep, tier):
     vr.tlc("MC_C02", f"MC_C02_{tier}.cfg", ["LayoutSig", "Expiry", "LoadLinks", "LinkSigs", "EnterSub", "Reduce", "StepRules", "Finish"])
     rep.cov["exhaustive"] = True
     vr.replay(families_for(tier))
+    vr.random(1500 if tier == "quick" else 20000)
     vr.sh.cleanup()
     rep.assumptions += VERIFY_ASSUME
 
@@ -417,6 +441,7 @@ def check_C15(rep, tier):
     vr.tlc("MC_C15", "MC_C15_deep.cfg", acts)
     rep.cov["exhaustive"] = True
     vr.replay(families_for(tier))
+    vr.random(800 if tier == "quick" else 8000, fam=families_for(tier)[-1])
     vr.sh.cleanup()
     rep.assumptions += VERIFY_ASSUME
 
